@@ -797,6 +797,9 @@ def strip(line):
 
 # ====================================================================== TLC jobs
 PARTS = ['small', 'wide', 'mixed', 'named', 'proj']
+# layer C mirrors the CURRENT code: '0' since /repo commit 573a8a1 (fix of KF-EXT-blockops-1, row extraction with zero
+# blocks of the wrong range); '1' reproduces the model of the code before that commit
+ROWBUG = os.environ.get('VERIF_BO_ROWBUG', '0')
 
 
 def plan(tier):
@@ -809,7 +812,7 @@ def plan(tier):
 
 
 def tlc_env(profile, part, tier, out=None):
-    env = {'BO_PROFILE': profile, 'BO_PART': part, 'BO_SIZE': 'q' if tier == 'quick' else 't', 'BO_ROWBUG': '1',
+    env = {'BO_PROFILE': profile, 'BO_PART': part, 'BO_SIZE': 'q' if tier == 'quick' else 't', 'BO_ROWBUG': ROWBUG,
            'BO_CHAIN': '3' if (tier != 'quick' and profile == 'R' and part != 'wide') else '2'}
     env['OUT_FILE'] = out or os.devnull
     return env
@@ -921,7 +924,9 @@ def select(line, clauses):
     return True
 
 
-def replay_exports(ctx, outs, clauses=None, extra_sig=None):
+def replay_exports(ctx, outs, clauses=None, extra_sig=None, share=1):
+    """Replay every exported state; returns the observations of every `share`-th replay (as events for the trace
+    specification) - all replays are compared with the exported expectation here."""
     import multiprocessing as mp
     quick = ctx.tier == 'quick'
     tasks = []
@@ -942,8 +947,10 @@ def replay_exports(ctx, outs, clauses=None, extra_sig=None):
                               line, clauses))
     nproc = min(12, max(2, (os.cpu_count() or 4) - 2))
     events = []
+    nrep = 0
     with mp.get_context('fork').Pool(nproc) as pool:
         for task, res in zip(tasks, pool.imap(_work, tasks, chunksize=64)):
+            nrep += 1
             viols, ev, nontrivial, drift = res
             if viols == 'ERR':
                 raise MachineryError('blockops replay worker failed:\n' + ev)
@@ -958,8 +965,9 @@ def replay_exports(ctx, outs, clauses=None, extra_sig=None):
             for msg in drift:
                 ctx.drift_note(msg)
             ev['profile'], ev['conc'], ev['form'] = profile, cname, form
-            events.append(ev)
-            if len(ctx.samples) < 3 and nontrivial and len(line['chain']) == 2 and len(events) % 211 == 0:
+            if nrep % share == ctx.seed % share:
+                events.append(ev)
+            if len(ctx.samples) < 3 and nontrivial and len(line['chain']) == 2 and nrep % 211 == 0:
                 ctx.sample({'root': line['root'], 'chain': line['chain'], 'concretisation': cname,
                             'expected': line['vals'], 'observed_calls': ev['calls'][:2]})
     ctx.traces += len(tasks)
@@ -1009,7 +1017,7 @@ def validate_events(ctx, groups, extra_sig=None, clauses=None):
     def val(j):
         profile, c0, p = j
         return j, run_tlc('Trace_BlockOp.tla', 'Trace_BlockOp.cfg', ctx.work,
-                          env={'TRACE_FILE': p, 'BO_PROFILE': profile, 'BO_ROWBUG': '1'}, workers=1, timeout=3000, heap='2g')
+                          env={'TRACE_FILE': p, 'BO_PROFILE': profile, 'BO_ROWBUG': ROWBUG}, workers=1, timeout=3000, heap='2g')
     with ThreadPoolExecutor(max_workers=8) as ex:
         res = list(ex.map(val, files))
     nfail = 0
@@ -1416,15 +1424,14 @@ def run_stage(ctx, clauses=None, extra_sig=None, laws_cfg='MC_BlockOp_laws.cfg')
     t0 = time.time()
     outs = run_models(ctx, laws_cfg)
     t1 = time.time()
-    events = replay_exports(ctx, outs, clauses, extra_sig)
+    # every driver event and a deterministic share of the replayed ones go through the trace specification
+    share = 3 if ctx.tier == 'quick' else 2
+    events = replay_exports(ctx, outs, clauses, extra_sig, share)
     t2 = time.time()
     groups = _drivers(ctx, clauses)
     t3 = time.time()
-    # every driver event and a deterministic share of the replayed ones go through the trace specification
-    share = 3 if ctx.tier == 'quick' else 2
-    for k, ev in enumerate(events):
-        if k % share == ctx.seed % share:
-            groups.setdefault(ev['profile'], []).append(ev)
+    for ev in events:
+        groups.setdefault(ev['profile'], []).append(ev)
     validate_events(ctx, groups, extra_sig, clauses)
     ctx.extra['blockops_wall_s'] = {'tlc_models': round(t1 - t0, 1), 'replay': round(t2 - t1, 1),
                                     'drivers': round(t3 - t2, 1), 'trace_validation': round(time.time() - t3, 1)}
@@ -1440,7 +1447,7 @@ def run_stage(ctx, clauses=None, extra_sig=None, laws_cfg='MC_BlockOp_laws.cfg')
             json.dump({'extra': {k: v for k, v in ctx.extra.items() if k.startswith('blockops')},
                        'tlc': [r for r in ctx.tlc_runs if r['name'].startswith('blockop')],
                        'families': fam, 'drift': ctx.drift, 'evaluations': ctx.evaluations}, f, indent=1)
-    return len(events)
+    return ctx.extra.get('blockops_replays', 0)
 
 
 def run_stage_c05(ctx):
